@@ -197,6 +197,8 @@ impl RunEnvironment {
 
 impl RunState {
     pub fn execute(&mut self, instr: u16) {
+        #[cfg(lace_verif)]
+        crate::verif::count_exec();
         let opcode = (instr >> 12) as usize;
         RunState::OP_TABLE[opcode](self, instr);
     }
